@@ -700,6 +700,66 @@ fn dag_rc(n: usize, edges: &[u32], roots: u32, weak: Option<(usize, usize)>) -> 
     Ok(text)
 }
 
+#[derive(Debug, Serialize, Deserialize)]
+#[serde(bound(deserialize = "P: DeserializeOwned + 'static", serialize = "P: Serialize"))]
+struct ExplicitKeyDoc<P> {
+    /// entries written as explicit `? key` / `: value` pairs: a composite key, a key longer than 1024 characters
+    m: BTreeMap<(i64, i64), RcAnchor<P>>,
+    long: BTreeMap<String, RcAnchor<P>>,
+    again: RcAnchor<P>,
+    again2: RcAnchor<P>,
+}
+
+/// shared values as the value of an explicit-key entry (the anchor ends the `:` line), then aliased
+fn explicit_key_pass(acc: &mut Acc, n_opts: u8) {
+    fn one<P: Serialize + DeserializeOwned + PartialEq + Debug + 'static>(acc: &mut Acc, name: &str, a: P, b: P, opts: u8) {
+        let (ra, rb) = (Rc::new(a), Rc::new(b));
+        let mut m = BTreeMap::new();
+        m.insert((1i64, 2i64), RcAnchor(ra.clone()));
+        let mut long = BTreeMap::new();
+        long.insert("k".repeat(1030), RcAnchor(rb.clone()));
+        let doc = ExplicitKeyDoc { m, long, again: RcAnchor(ra.clone()), again2: RcAnchor(rb.clone()) };
+        acc.evaluations += 1;
+        acc.execs += 2;
+        acc.compared += 1;
+        acc.nontrivial += 1;
+        acc.class("explicit_key_entry", 1);
+        let key = |clause: &str| format!("{}|shared {} as the value of an explicit-key entry|{}", clause, name, OPTS[opts as usize]);
+        let text = match guarded(|| serde_saphyr::to_string_with_options(&doc, ser_opts(opts).to_lib())) {
+            Err(p) => return acc.add_violation(key("panic_ser"), "panic_ser", p, json!({"payload": name, "opts": opts}), json!({})),
+            Ok(Err(e)) => return acc.add_violation(key("ser_error"), "ser_error", e.to_string(), json!({"payload": name, "opts": opts}), json!({})),
+            Ok(Ok(t)) => t,
+        };
+        let shown: String = text.replace(&"k".repeat(1030), "<1030 x k>");
+        match guarded(|| serde_saphyr::from_str::<ExplicitKeyDoc<P>>(&text)) {
+            Err(p) => acc.add_violation(key("panic_de"), "panic_de", p, json!({"payload": name, "opts": opts}), json!({})),
+            Ok(Err(e)) => acc.add_violation(key("readback_error"), "readback_error", format!("emitted {:?}; read-back failed: {}", shown, e.to_string().lines().next().unwrap_or("")), json!({"payload": name, "opts": opts}), json!({})),
+            Ok(Ok(back)) => {
+                let v1 = back.m.get(&(1, 2));
+                let v2 = back.long.values().next();
+                match (v1, v2) {
+                    (Some(x), Some(y)) => {
+                        if *x.0 != *ra || *y.0 != *rb || *back.again.0 != *ra || *back.again2.0 != *rb {
+                            acc.add_violation(key("value_differs"), "value_differs", format!("emitted {:?}; read back {:?}", shown, back.again), json!({"payload": name, "opts": opts}), json!({}));
+                        } else if !Rc::ptr_eq(&x.0, &back.again.0) || !Rc::ptr_eq(&y.0, &back.again2.0) {
+                            acc.add_violation(key("sharing_relation_changed"), "sharing_relation_changed", format!("emitted {:?}; the value of the explicit-key entry and its alias are no longer one allocation", shown), json!({"payload": name, "opts": opts}), json!({}));
+                        }
+                    }
+                    _ => acc.add_violation(key("slot_missing"), "slot_missing", format!("emitted {:?}", shown), json!({"payload": name, "opts": opts}), json!({})),
+                }
+            }
+        }
+    }
+    for opts in 0..n_opts {
+        one::<Vec<i64>>(acc, "Vec<i64>", vec![1, 2, 3], vec![4, 5], opts);
+        one::<BTreeMap<String, i64>>(acc, "BTreeMap<String,i64>", [("a".to_string(), 1), ("b".to_string(), 2)].into_iter().collect(), [("c".to_string(), 3)].into_iter().collect(), opts);
+        one::<String>(acc, "String", "s".into(), "t".into(), opts);
+        one::<EV>(acc, "enum EV", EV::new(1), EV::new(2), opts);
+        one::<Vec<Vec<i64>>>(acc, "Vec<Vec<i64>>", vec![vec![1], vec![2, 3]], vec![vec![]], opts);
+        one::<Option<i64>>(acc, "Option<i64>", Some(1), None, opts);
+    }
+}
+
 pub fn run(ctx: &Ctx) -> i32 {
     let p = C14;
     let kmax = ctx.tier.pick(4usize, 6usize);
@@ -739,6 +799,7 @@ pub fn run(ctx: &Ctx) -> i32 {
         }
     }
     let mut acc = run_list(&p, &cases);
+    explicit_key_pass(&mut acc, ctx.tier.pick(4u8, OPTS.len() as u8));
     // cycles
     for n in 1..=ctx.tier.pick(3usize, 4usize) {
         for from in 0..n {
